@@ -42,6 +42,8 @@ class Block:
 
 
 def build(S):
+    from contracts import dispatch
+    dispatch.prove_dispatch(S)
     S.function(REL, 'Atoms.load_p1_cif')
 
     def run_decisions():
